@@ -366,27 +366,31 @@ fn digit_initial_word(t: &Tok) -> bool {
 }
 
 /// May the gap between `a` and `b` be empty?  Deliberately conservative (DESIGN §3.1): at least one neighbour is
-/// `( ) , ;` or a string literal, or one is a word and the other an operator that is not `+`/`-` next to a
-/// digit-initial word.  The caller additionally re-lexes the whole rendering.
+/// `( ) , ;` or a string literal, or one is a word and the other an operator — except a sign directly after a
+/// digit-initial word ending in e/E (the signed-exponent join).  The caller additionally re-lexes the whole rendering
+/// with the reference lexer and discards it unless it yields the same token list.
 pub fn may_be_empty(a: &Tok, b: &Tok) -> bool {
     if is_tight(a) || is_tight(b) {
         return true;
     }
-    let word_op = |w: &Tok, o: &Tok| -> bool {
+    // word followed by operator: `1e` + `-` (+ digits) would fuse into a float, so a digit-initial word ending in
+    // e/E never touches a following sign; everything else is separated by the operator character itself
+    let word_then_op = |w: &Tok, o: &Tok| -> bool {
         if !w.is_word() {
             return false;
         }
         match o {
             Tok::Op(op) => {
-                if (*op == "+" || *op == "-" || *op == "+=" || *op == "-=") && digit_initial_word(w) {
-                    return false;
-                }
-                true
+                let t = w.text();
+                let mantissa_e = digit_initial_word(w) && (t.ends_with('e') || t.ends_with('E'));
+                !(mantissa_e && (op.starts_with('+') || op.starts_with('-')))
             },
             _ => false,
         }
     };
-    word_op(a, b) || word_op(b, a)
+    // operator followed by word: no operator character can start or extend a word
+    let op_then_word = |o: &Tok, w: &Tok| -> bool { matches!(o, Tok::Op(_)) && w.is_word() };
+    word_then_op(a, b) || op_then_word(a, b)
 }
 
 /// One random separator (never empty). `prev_is_slash`: the token before the gap ends in `/`, so the separator
